@@ -23,6 +23,7 @@ impl Trace {
     pub fn ev(&mut self, v: Value) {
         serde_json::to_writer(&mut self.w, &v).unwrap();
         self.w.write_all(b"\n").unwrap();
+        self.w.flush().unwrap(); // the engine may abort the process: every complete event must already be on disk
         self.n += 1;
     }
     pub fn finish(mut self) -> usize {
